@@ -212,6 +212,7 @@ def run(repo: Repo, rep: Report, tier: str) -> None:
 
     guarded(rep, rule_tag_attrs_spare_client_members, repo, rep, "R7.14")
     guarded(rep, rule_path_item_refs_and_unknown_keys, repo, rep, "R7.15")
+    guarded(rep, rule_ref_chain_keeps_every_hop, repo, rep, "R7.16")
     # ---------------------------------------------------------------- R7.10 / R7.11
     from rules._memo import persistent_memo_rule
 
@@ -820,3 +821,55 @@ def rule_every_method_written(repo: Repo, rep, rule: str = "R7.13") -> None:
                       "exists, awaits and returns None without sending a request)", fn.loc(node))
     else:
         rep.ok(rule, sub, f"`{p}` is written element by element, unconditionally, and is never re-bound or shortened", fn.loc(lp))
+
+
+_R716_EXAMPLE = '''
+def parse_operations(paths, context):
+    for path, entry in paths.items():
+        siblings = {k: v for k, v in entry.items() if k != "$ref"}
+        while "$ref" in entry:
+            target = context.components.get(entry["$ref"])
+            entry = {**target, **siblings}
+'''
+
+
+def _r716_stale_merges(fn_node: ast.AST) -> tuple[int, list[tuple[str, ast.AST]]]:
+    """(reference-following loops, [(name, merge)]): in a loop that follows `$ref` hop by hop, a mapping spread over each hop's target that was
+    computed before the loop."""
+    loops = [w for w in ast.walk(fn_node) if isinstance(w, ast.While) and any(const_str(c) == "$ref" for c in ast.walk(w.test))]
+    bad: list[tuple[str, ast.AST]] = []
+    for w in loops:
+        tested = {x.id for x in ast.walk(w.test) if isinstance(x, ast.Name)}
+        inside = {t.id for st in ast.walk(w) if isinstance(st, (ast.Assign, ast.AnnAssign)) for t in (st.targets if isinstance(st, ast.Assign) else [st.target]) if isinstance(t, ast.Name)}
+        for st in ast.walk(w):
+            if isinstance(st, ast.Assign) and any(isinstance(t, ast.Name) and t.id in tested for t in st.targets) and isinstance(st.value, ast.Dict):
+                for k, v in zip(st.value.keys, st.value.values):
+                    if k is None and isinstance(v, ast.Name) and v.id not in inside and v.id not in tested:
+                        bad.append((v.id, st))
+    return len(loops), bad
+
+
+def rule_ref_chain_keeps_every_hop(repo: Repo, rep, rule: str = "R7.16") -> None:
+    """Where `parse_operations` follows a chain of Path Item references, what is laid over each hop's target are the fields that stand next to
+    *that* hop's `$ref`.  A `siblings` mapping computed once from the `paths` entry and re-applied in the loop drops the operations an
+    intermediate Path Item declares beside its own reference - accepted document, methods missing from the client."""
+    n, bad = _r716_stale_merges(ast.parse(_R716_EXAMPLE).body[0])
+    rep.require(n == 1 and len(bad) == 1, f"{rule}: the built-in positive example is no longer recognised - the rule is broken")
+    mod = repo.module("core.loader.operations.parser")
+    fn = mod.functions.get("parse_operations")
+    if fn is None:
+        raise AnalysisError(f"{rule}: anchor vanished: parse_operations")
+    total = 0
+    hits = []
+    for q, f in sorted(mod.functions.items()):
+        k, bad = _r716_stale_merges(f.node)
+        total += k
+        hits += [(q, f, nm, st) for nm, st in bad]
+    rep.count(f"{rule}:ref_following_loops", total)
+    for q, f, nm, st in hits:
+        rep.violation(rule, f"{mod.relpath}:{q} merge in the reference-following loop", f"{mod.name}:{q}|stale-siblings-over-ref-chain|{nm}",
+                      f"`{norm(st)[:70]}`: `{nm}` is computed before the loop, so every hop is overlaid with the fields of the first one and the operations an "
+                      "intermediate Path Item declares next to its own `$ref` are dropped silently", f.loc(st))
+    if not hits:
+        rep.ok(rule, f"{mod.relpath}: no reference chain is followed with fields computed outside the loop",
+               f"{total} reference-following loops (a single hop is resolved or rejected: R7.15)", f"{mod.relpath}:1")
